@@ -52,7 +52,10 @@ def texts_for(rng, row):
         out += ['1.0', '2.0', '3.0', '4.0', 'none', '2', '2.5']
     elif kind == 'KUrl':
         out += ['https://lic.example/a', 'https://lic.example/ck?a=1&b=2', 'https://l.example/a b', 'https://l.example/{kid}?x=%7Bcfg%7D',
-                'https://l.example/a+b', 'https://l.example/100%25', 'none']
+                'https://l.example/a+b', 'https://l.example/100%25', 'none',
+                # texts that are still escaped after the query-string layer has decoded them once (the documented '<escaped-url>'
+                # form): the value then holds a literal '+' or '%41'
+                'https%3A%2F%2Fl.example%2Fa%2Bb', 'https%3A%2F%2Fl.example%2Fx%2541', 'https%3A%2F%2Fl.example%2Fq%3Fa%3D1%26b%3D2']
     elif kind == 'KAst':
         out += ['today', 'now', 'year', 'month', 'epoch', '2024-01-01T00:00:00Z', '2024-01-01T01:30:00+01:30',
                 '2023-12-31T19:00:00-05:00', '2024-01-01T00:00:00.250Z', '2023-12-31T20:30:00-03:30', '2024-01-01T05:45:00+05:45',
@@ -75,7 +78,7 @@ def texts_for(rng, row):
     return list(dict.fromkeys(out))
 
 
-KCODE = {'KBool': 0, 'KIntOrNone': 1, 'KIntDefault': 2, 'KStrOrNone': 3, 'KStr': 4, 'KList': 5}
+KCODE = {'KBool': 0, 'KIntOrNone': 1, 'KIntDefault': 2, 'KStrOrNone': 3, 'KStr': 4, 'KList': 5, 'KUrl': 6, 'KErrors': 7, 'KAst': 8, 'KDrm': 9}
 
 
 def model_kind(row):
@@ -98,6 +101,33 @@ def model_value(row, v):
         return [3, [] if v is None else [[ord(c) for c in v]]]
     if k == 'KStr':
         return [4, [ord(c) for c in v]]
+    if k == 'KUrl':          # the model works on the UTF-8 bytes of the URL
+        return [3, [] if v is None else [list(v.encode('utf-8'))]]
+    if k == 'KErrors':       # integer positions only (a date-time position is outside the model)
+        if any(not isinstance(pos, int) or isinstance(pos, bool) for _, pos in v):
+            return None
+        return [6, [[int(code), int(pos)] for code, pos in v]]
+    if k == 'KAst':
+        if isinstance(v, str):
+            return [7, [ord(c) for c in v]]
+        if v is None:
+            return None
+        off = v.utcoffset()
+        if off is None:
+            offv = []
+        else:
+            secs = off.total_seconds()
+            if secs != int(secs) or int(secs) % 60:
+                return None
+            offv = [int(secs) // 60]
+        return [8, [v.year, v.month, v.day, v.hour, v.minute, v.second, v.microsecond, offv]]
+    if k == 'KDrm':
+        names = ['clearkey', 'marlin', 'playready']
+        out = []
+        for name, locs in v:
+            ls = {getattr(x, 'value', x) for x in locs}
+            out.append([names.index(name), int('cenc' in ls), int('moov' in ls), int('pro' in ls)])
+        return [9, out]
     return [5, [[ord(c) for c in x] for x in v]]
 
 
@@ -165,10 +195,18 @@ def codec_suite(ctx):
                 # model correspondence for the proved kinds
                 if row['kind'].split()[0] in KCODE and uname == 'manifest':
                     text = str(params[o.cgi_name])
-                    fmt_reqs.append([0, model_kind(row), model_value(row, v)])
-                    fmt_meta.append((inp, [[ord(c) for c in text]]))
-                    parse_reqs.append([1, model_kind(row), [ord(c) for c in text]])
-                    parse_meta.append((inp, [model_value(row, v2)] if not err else []))
+                    try:
+                        mv, mv2 = model_value(row, v), (model_value(row, v2) if not err else None)
+                    except Exception:  # noqa
+                        mv = mv2 = None
+                    if mv is None or (mv2 is None and not err):
+                        ctx.dist('model:value-outside-the-model:%s' % row['kind'].split()[0])
+                    else:
+                        ctx.dist('model:kind:%s' % row['kind'].split()[0])
+                        fmt_reqs.append([0, model_kind(row), mv])
+                        fmt_meta.append((inp, [[ord(c) for c in text]]))
+                        parse_reqs.append([1, model_kind(row), [ord(c) for c in text]])
+                        parse_meta.append((inp, [mv2] if not err else []))
     ok = True
     for reqs, meta, what in ((fmt_reqs, fmt_meta, 'to_string'), (parse_reqs, parse_meta, 'from_string(request.args)')):
         res = common.run_model_parallel(7, reqs)
